@@ -2672,85 +2672,91 @@ class Matrix:
 
         for sub_element in REGEX_TRANSFORM_TEMPLATE.findall(transform_str.lower()):
             name = sub_element[0]
-            params = tuple(REGEX_TRANSFORM_PARAMETER.findall(sub_element[1]))
-            params = [mag + units for mag, units in params]
-            if SVG_TRANSFORM_MATRIX == name:
-                params = map(float, params)
-                self.pre_cat(*params)
-            elif SVG_TRANSFORM_TRANSLATE == name:
-                try:
-                    x_param = Length(params[0]).value()
-                except IndexError:
-                    continue
-                try:
-                    y_param = Length(params[1]).value()
-                    self.pre_translate(x_param, y_param)
-                except IndexError:
-                    self.pre_translate(x_param)
-            elif SVG_TRANSFORM_TRANSLATE_X == name:
-                self.pre_translate(Length(params[0]).value(), 0)
-            elif SVG_TRANSFORM_TRANSLATE_Y == name:
-                self.pre_translate(0, Length(params[0]).value())
-            elif SVG_TRANSFORM_SCALE == name:
-                params = map(float, params)
-                self.pre_scale(*params)
-            elif SVG_TRANSFORM_SCALE_X == name:
-                self.pre_scale(float(params[0]), 1)
-            elif SVG_TRANSFORM_SCALE_Y == name:
-                self.pre_scale(1, float(params[0]))
-            elif SVG_TRANSFORM_ROTATE == name:
-                angle = Angle.parse(params[0])
-                try:
-                    x_param = Length(params[1]).value()
-                except IndexError:
-                    self.pre_rotate(angle)
-                    continue
-                try:
-                    y_param = Length(params[2]).value()
-                    self.pre_rotate(angle, x_param, y_param)
-                except IndexError:
-                    self.pre_rotate(angle, x_param)
-            elif SVG_TRANSFORM_SKEW == name:
-                angle_a = Angle.parse(params[0])
-                try:
-                    angle_b = Angle.parse(params[1])
-                except IndexError:  # CSS: a missing second angle is zero.
-                    self.pre_skew(angle_a, 0.0)
-                    continue
-                try:
-                    x_param = Length(params[2]).value()
-                except IndexError:
-                    self.pre_skew(angle_a, angle_b)
-                    continue
-                try:
-                    y_param = Length(params[3]).value()
-                    self.pre_skew(angle_a, angle_b, x_param, y_param)
-                except IndexError:
-                    self.pre_skew(angle_a, angle_b, x_param)
-            elif SVG_TRANSFORM_SKEW_X == name:
-                angle_a = Angle.parse(params[0])
-                try:
-                    x_param = Length(params[1]).value()
-                except IndexError:
-                    self.pre_skew_x(angle_a)
-                    continue
-                try:
-                    y_param = Length(params[2]).value()
-                    self.pre_skew_x(angle_a, x_param, y_param)
-                except IndexError:
-                    self.pre_skew_x(angle_a, x_param)
-            elif SVG_TRANSFORM_SKEW_Y == name:
-                angle_b = Angle.parse(params[0])
-                try:
-                    x_param = Length(params[1]).value()
-                except IndexError:
-                    self.pre_skew_y(angle_b)
-                    continue
-                try:
-                    y_param = Length(params[2]).value()
-                    self.pre_skew_y(angle_b, x_param, y_param)
-                except IndexError:
-                    self.pre_skew_y(angle_b, x_param)
+            state = (self.a, self.b, self.c, self.d, self.e, self.f)
+            try:
+                params = tuple(REGEX_TRANSFORM_PARAMETER.findall(sub_element[1]))
+                params = [mag + units for mag, units in params]
+                if SVG_TRANSFORM_MATRIX == name:
+                    params = map(float, params)
+                    self.pre_cat(*params)
+                elif SVG_TRANSFORM_TRANSLATE == name:
+                    try:
+                        x_param = Length(params[0]).value()
+                    except IndexError:
+                        continue
+                    try:
+                        y_param = Length(params[1]).value()
+                        self.pre_translate(x_param, y_param)
+                    except IndexError:
+                        self.pre_translate(x_param)
+                elif SVG_TRANSFORM_TRANSLATE_X == name:
+                    self.pre_translate(Length(params[0]).value(), 0)
+                elif SVG_TRANSFORM_TRANSLATE_Y == name:
+                    self.pre_translate(0, Length(params[0]).value())
+                elif SVG_TRANSFORM_SCALE == name:
+                    params = map(float, params)
+                    self.pre_scale(*params)
+                elif SVG_TRANSFORM_SCALE_X == name:
+                    self.pre_scale(float(params[0]), 1)
+                elif SVG_TRANSFORM_SCALE_Y == name:
+                    self.pre_scale(1, float(params[0]))
+                elif SVG_TRANSFORM_ROTATE == name:
+                    angle = Angle.parse(params[0])
+                    try:
+                        x_param = Length(params[1]).value()
+                    except IndexError:
+                        self.pre_rotate(angle)
+                        continue
+                    try:
+                        y_param = Length(params[2]).value()
+                        self.pre_rotate(angle, x_param, y_param)
+                    except IndexError:
+                        self.pre_rotate(angle, x_param)
+                elif SVG_TRANSFORM_SKEW == name:
+                    angle_a = Angle.parse(params[0])
+                    try:
+                        angle_b = Angle.parse(params[1])
+                    except IndexError:  # CSS: a missing second angle is zero.
+                        self.pre_skew(angle_a, 0.0)
+                        continue
+                    try:
+                        x_param = Length(params[2]).value()
+                    except IndexError:
+                        self.pre_skew(angle_a, angle_b)
+                        continue
+                    try:
+                        y_param = Length(params[3]).value()
+                        self.pre_skew(angle_a, angle_b, x_param, y_param)
+                    except IndexError:
+                        self.pre_skew(angle_a, angle_b, x_param)
+                elif SVG_TRANSFORM_SKEW_X == name:
+                    angle_a = Angle.parse(params[0])
+                    try:
+                        x_param = Length(params[1]).value()
+                    except IndexError:
+                        self.pre_skew_x(angle_a)
+                        continue
+                    try:
+                        y_param = Length(params[2]).value()
+                        self.pre_skew_x(angle_a, x_param, y_param)
+                    except IndexError:
+                        self.pre_skew_x(angle_a, x_param)
+                elif SVG_TRANSFORM_SKEW_Y == name:
+                    angle_b = Angle.parse(params[0])
+                    try:
+                        x_param = Length(params[1]).value()
+                    except IndexError:
+                        self.pre_skew_y(angle_b)
+                        continue
+                    try:
+                        y_param = Length(params[2]).value()
+                        self.pre_skew_y(angle_b, x_param, y_param)
+                    except IndexError:
+                        self.pre_skew_y(angle_b, x_param)
+            except (IndexError, ValueError, TypeError, ArithmeticError):
+                # A function with missing or malformed parameters is in error: it is ignored.
+                self.a, self.b, self.c, self.d, self.e, self.f = state
+
         return self
 
     def render(
